@@ -16,7 +16,8 @@ VARIABLE l
 
 (* header representation of a phred+33 quality character: string.ascii_letters[phred] (the C04 table; 0..51 only) *)
 Enc(c) == IF c - 33 < 26 THEN 97 + (c - 33) ELSE 65 + (c - 33 - 26)
-Comp(c) == CASE c = 65 -> 84 [] c = 84 -> 65 [] c = 67 -> 71 [] c = 71 -> 67 [] OTHER -> c
+Comp(c) == CASE c = 65 -> 84 [] c = 84 -> 65 [] c = 67 -> 71 [] c = 71 -> 67                 \* A<->T C<->G, case preserved
+              [] c = 97 -> 116 [] c = 116 -> 97 [] c = 99 -> 103 [] c = 103 -> 99 [] OTHER -> c
 IsT(c) == c = 84
 
 InR(e) == IF e.nm = 2 THEN <<e.r1, e.r2>> ELSE <<e.r1>>
